@@ -193,7 +193,22 @@ def project(log_lines, truths):
         if not has_w:
             toks.append("T0")
         elif last_w is not None and last_w[1] == "c" and not any(it[0] == "Sw" for it in items[items.index(last_w):]):
-            toks.append("Y")
+            # the synchronisation of the repaired wait() (mutex acquired and released) is not logged:
+            # it is placed at the latest point after the ECHILD answer where the handler is outside
+            # (a later invocation of the handler, for another child, may be in progress when execute()
+            # returns); if there is no such point it is placed at the end (and the model rejects it)
+            lw = max(x for x, t in enumerate(toks) if t.startswith("Wc:"))
+            inside_h, pos = False, None
+            for x, t in enumerate(toks):
+                if x > lw and not inside_h:
+                    pos = x
+                if t == "E":
+                    inside_h = True
+                elif t == "L":
+                    inside_h = False
+            if not inside_h or pos is None:
+                pos = len(toks) if not inside_h else (pos if pos is not None else len(toks))
+            toks.insert(pos, "Y")
         path = ("EINTR" if any(it[0] == "W" and it[1] == "i" for it in items) else
                 "ECHILD" if any(it[0] == "W" and it[1] == "c" for it in items) else
                 "waiter-reaps" if any(it[0] == "W" and it[1] == "r" for it in items) else "handler-first")
@@ -216,6 +231,9 @@ def run(ck):
     driver = ck.lean_exe("c30driver", "TfelVerif/C30/Driver.lean")
     res = ck.lean(PROPS, PROPS)
     ck.lean_violations(res)
+    if ck.tier == "thorough" and res.ok:
+        for m, log in ck.leanchecker(PROPS):
+            ck.violation("leanchecker:" + m, "leanchecker rejects " + m, {"log": log}, False)
 
     if ck.quick:
         configs = [("A", 1, 10), ("A", 4, 5), ("A", 16, 3), ("B", 1, 12), ("C", 2, 8), ("C", 8, 4)]
